@@ -48,6 +48,7 @@ func runC03(c *core.Ctx) {
 		case 2:
 			cfg.PauseBias, cfg.Delay = 1, 0
 		}
+		cfg.KeepGoing = true
 		dir, done := caseDir(c, i)
 		rep := twin.RunProgram(rng, dir, cfg)
 		done()
